@@ -30,9 +30,11 @@ import (
 	"encoding/json"
 	"fmt"
 	"runtime"
+	"sort"
 	"strconv"
 	"strings"
 	"sync"
+	"sync/atomic"
 	"time"
 
 	"github.com/enbility/spine-go/api"
@@ -553,6 +555,46 @@ func (m *impl) Exec(op hx.Zs) []hx.Zs {
 			d = nil
 		}
 		return append(out, m.renderData(d)...)
+	case 4: // Par2: two operations released together on goroutines the scheduler does not park
+		if len(op) < 3 || op[1] < 0 || int(op[1]) > len(op)-2 {
+			return []hx.Zs{{97}}
+		}
+		for _, w := range m.threads {
+			if w.state != 3 {
+				return []hx.Zs{{5}} // somebody holds or awaits the mutex: the step is not realisable
+			}
+		}
+		f1, f2 := m.operation(op[2:2+op[1]]), m.operation(op[2+op[1]:])
+		if f1 == nil || f2 == nil {
+			return []hx.Zs{{97}}
+		}
+		var ready, fin sync.WaitGroup
+		var start int32
+		for _, f := range []func(){f1, f2} {
+			ready.Add(1)
+			fin.Add(1)
+			go func(f func()) {
+				defer fin.Done()
+				ready.Done()
+				for atomic.LoadInt32(&start) == 0 { // spinning common start
+				}
+				f()
+			}(f)
+		}
+		ready.Wait()
+		atomic.StoreInt32(&start, 1)
+		finished := make(chan struct{})
+		go func() { fin.Wait(); close(finished) }()
+		select {
+		case <-finished:
+		case <-time.After(5 * time.Second):
+			return []hx.Zs{{96}}
+		}
+		d, err := spine.LocalFeatureDataCopyOfType[*model.NodeManagementUseCaseDataType](m.dev.NodeManagement(), model.FunctionTypeNodeManagementUseCaseData)
+		if err != nil {
+			d = nil
+		}
+		return append([]hx.Zs{{3}}, m.renderData(d)...)
 	case 2: // Has
 		if len(op) != 4 || m.ents[op[1]] == nil {
 			return []hx.Zs{{97}}
@@ -616,6 +658,31 @@ func query(r *hx.Rng) hx.Zs {
 func gen(r *hx.Rng, tier string, i int) []hx.Zs {
 	var h []hx.Zs
 	begin := func(t int64, u hx.Zs) { h = append(h, append(hx.Zs{0, t}, u...)) }
+	if i%4 == 3 {
+		// free-running pairs, the first of them being the first use of the fresh device: operations on
+		// different entities (both completion orders denote the same registry), queries in between
+		n := r.Range(3, 14)
+		for k := 0; k < n; k++ {
+			u1, u2 := randOp(r), randOp(r)
+			for u2[1] == u1[1] {
+				u2 = randOp(r)
+			}
+			if k == 0 || r.Chance(2, 3) { // mostly additions: they are what a lost update loses
+				u1 = hx.Zs{0, u1[1], int64(r.Range(1, nActor)), int64(r.Range(1, nName)), int64(r.Range(1, 3)), 1, 1, int64(r.Range(1, 6))}
+				u2 = hx.Zs{0, u2[1], int64(r.Range(1, nActor)), int64(r.Range(1, nName)), int64(r.Range(1, 3)), 1, 1}
+			}
+			h = append(h, append(append(hx.Zs{4, int64(len(u1))}, u1...), u2...))
+			if r.Chance(1, 2) {
+				h = append(h, query(r))
+			}
+			if r.Chance(1, 5) {
+				begin(0, randOp(r))
+				h = append(h, hx.Zs{1, 0})
+			}
+		}
+		h = append(h, hx.Zs{3})
+		return h
+	}
 	switch i % 3 {
 	case 0: // sequential history
 		n := r.Range(4, 40)
@@ -683,12 +750,68 @@ func fixed(tier string) [][]hx.Zs {
 	}
 }
 
+// In a history that lets two operations run freely the order of the entries of the data is the
+// schedule's business: every dump of such a history (model's and implementation's) is compared with
+// its entries sorted by (entity, actor), stably.  The monitor's clauses do not depend on that order.
+var sortedDumps bool
+
+func prepare(h []hx.Zs) {
+	sortedDumps = false
+	for _, op := range h {
+		if len(op) > 0 && op[0] == 4 {
+			sortedDumps = true
+		}
+	}
+}
+
+func canon(op hx.Zs, obs []hx.Zs) []hx.Zs {
+	if !sortedDumps {
+		return obs
+	}
+	// split into prefix (up to the first entry), entries (7 .. followed by 8 ..), suffix (from 9)
+	i := 0
+	for i < len(obs) && !(len(obs[i]) > 0 && (obs[i][0] == 7 || obs[i][0] == 9)) {
+		i++
+	}
+	j := i
+	for j < len(obs) && len(obs[j]) > 0 && (obs[j][0] == 7 || obs[j][0] == 8) {
+		j++
+	}
+	if j == i {
+		return obs
+	}
+	var entries [][]hx.Zs
+	for k := i; k < j; k++ {
+		if obs[k][0] == 7 || len(entries) == 0 {
+			entries = append(entries, nil)
+		}
+		entries[len(entries)-1] = append(entries[len(entries)-1], obs[k])
+	}
+	sort.SliceStable(entries, func(a, b int) bool {
+		x, y := entries[a][0], entries[b][0]
+		if len(x) < 3 || len(y) < 3 || x[0] != 7 || y[0] != 7 {
+			return false
+		}
+		if x[1] != y[1] {
+			return x[1] < y[1]
+		}
+		return x[2] < y[2]
+	})
+	out := append([]hx.Zs{}, obs[:i]...)
+	for _, e := range entries {
+		out = append(out, e...)
+	}
+	return append(out, obs[j:]...)
+}
+
 func main() {
 	hx.Main(hx.Config{
+		Canon:    canon,
+		Prepare:  prepare,
 		Property: "C20",
 		Clauses: map[int64]string{1: "has-differs-from-registry", 2: "data-differs-from-registry", 3: "read-reply-differs-from-registry",
 			4: "other-entity-changed", 5: "malformed-observation", 98: "unparseable-observation", 99: "unparseable-operation"},
-		OpNames: map[int64]string{0: "begin", 1: "end", 2: "has", 3: "read"},
+		OpNames: map[int64]string{0: "begin", 1: "end", 2: "has", 3: "read", 4: "two operations running freely"},
 		NewImpl: newImpl,
 		Gen:     gen,
 		Fixed:   fixed,
